@@ -4,7 +4,7 @@ C05.F flip table = negation; C05.N API name <-> condition constant; C05.G the
 emitted branch is the flipped one, operands in order, label after the body;
 C05.L loop emitters: label and loop-register coherence; C05.U "at most" exit
 predicate; C05.A add on futures; C05.M measurement outcome placement;
-C05.P flush order.
+C05.R registers stay reserved until the commands using them are built; C05.P flush order.
 """
 from __future__ import annotations
 
@@ -500,6 +500,13 @@ def check_flush(ctx):
               f"array declarations / program / returns are emitted in the order {order}", b.loc(aa))
 
 
+def check_register_liveness(ctx):
+    """loop registers and condition temporaries stay reserved until the commands that use them have been built (shared with C14.A4)"""
+    from . import c14
+
+    c14.check_use_after_release(ctx, "C05.R")
+
+
 def run(ctx):
     check_flip(ctx)
     check_api_names(ctx)
@@ -507,6 +514,7 @@ def run(ctx):
     check_loops(ctx)
     check_at_most(ctx)
     check_future_ops(ctx)
+    check_register_liveness(ctx)
     check_flush(ctx)
     n = len(E.icmds_in(ctx.repo.module(B).tree))
     ctx.anchor("C05.G", "ICmd constructions in sdk/builder.py", n, 55)
@@ -530,6 +538,8 @@ SEEDS = [
     dict(id="c05-add-operands", file=FU, expect="C05.A", construct="Future.add", old="        add_operands: List[ir.T_ProtoOperand] = [\n            tmp_register,\n            tmp_register,\n            other_operand,\n        ]", new="        add_operands: List[ir.T_ProtoOperand] = [\n            tmp_register,\n            other_operand,\n            other_operand,\n        ]"),
     dict(id="c05-addm-no-mod", file=FU, expect="C05.A", construct="RegFuture.add", old="            add_instr = GenericInstr.ADDM\n            add_operands.append(mod)\n\n        commands = (\n            load_commands\n            + [\n                ICmd(\n                    instruction=add_instr,\n                    operands=add_operands,\n                )\n            ]\n            + store_commands\n        )\n\n        if other_tmp_register is not None:\n            self.builder._mem_mgr.remove_active_register(other_tmp_register)\n\n        self.builder.subrt_add_pending_commands(commands)\n\n\nclass Array",
          new="            add_instr = GenericInstr.ADD\n            add_operands.append(mod)\n\n        commands = (\n            load_commands\n            + [\n                ICmd(\n                    instruction=add_instr,\n                    operands=add_operands,\n                )\n            ]\n            + store_commands\n        )\n\n        if other_tmp_register is not None:\n            self.builder._mem_mgr.remove_active_register(other_tmp_register)\n\n        self.builder.subrt_add_pending_commands(commands)\n\n\nclass Array"),
+    dict(id="c05-release-before-build", file=BF, expect="C05.R", construct="_loop_until_context_exit", old="        self._build_cmds_loop_until(\n            pre_commands=pre_commands,\n            body_commands=body_commands,\n            context=context,\n            loop_register=loop_register,\n        )\n        self._mem_mgr.remove_active_register(loop_register)\n",
+         new="        self._mem_mgr.remove_active_register(loop_register)\n        self._build_cmds_loop_until(\n            pre_commands=pre_commands,\n            body_commands=body_commands,\n            context=context,\n            loop_register=loop_register,\n        )\n"),
     dict(id="c05-reset-before-send", file="netqasm/sdk/connection.py", expect="C05.P", construct="commit_protosubroutine", old="        subroutine.instantiate(self.app_id)\n\n        # Commit the subroutine to the quantum device\n        self.commit_subroutine(subroutine, block, callback)\n\n        self._builder._reset()", new="        self._builder._reset()\n        subroutine.instantiate(self.app_id)\n\n        # Commit the subroutine to the quantum device\n        self.commit_subroutine(subroutine, block, callback)"),
     dict(id="c05-meas-store-reg", file=BF, expect="C05.M", construct="_build_cmds_measure", old="                outcome_commands = future._get_store_commands(outcome_reg)", new="                outcome_commands = future._get_store_commands(qubit_reg)"),
 ]
